@@ -51,4 +51,57 @@ var registry = []HarnessSpec{
 	{Prop: "C18", Pkg: mod, PkgName: "sonic", Func: "VerifC18Froze", Tier: "quick", Covers: []string{"end"},
 		Desc:   "Config.Froze: encoderOpts/decoderOpts equal the OR of exactly the documented option constants, for every Config",
 		Bounds: "all 2^16 boolean Config fields symbolic (one query per assertion)"},
+
+	{Prop: "C07", Pkg: mod + "/internal/decoder/errors", PkgName: "errors", Func: "VerifC07CalcBounds", Tier: "quick", Covers: []string{"inside", "end"},
+		Desc:   "errors.calcBounds: excerpt bounds inside the source, dot runs non-negative and <= 32, caret under the position",
+		Bounds: "all source lengths 1..2^62, all int64 positions"},
+	{Prop: "C07", Pkg: mod + "/internal/decoder/errors", PkgName: "errors", Func: "VerifC07SyntaxErrorDescription", Tier: "quick", Covers: []string{"end"},
+		Desc:   "errors.SyntaxError.Description/Error never panic (slice bounds, negative Repeat) for any stored position",
+		Bounds: "source length 0..3 (symbolic bytes), all int64 positions, codes 0..12; fmt.Sprintf opaque"},
+	{Prop: "C07", Pkg: mod + "/internal/decoder/errors", PkgName: "errors", Func: "VerifC07MismatchDescription", Tier: "quick", Covers: []string{"end"},
+		Desc:    "MismatchTypeError formatting helpers (swithchJSONType, description) never panic for positions inside the input",
+		Bounds:  "source length 1..3, 0 <= pos < len",
+		Assumes: []string{"MismatchTypeError.Pos is the offset of a byte of the input (0 <= Pos < len(Src))"}},
+
+	{Prop: "C01", Pkg: mod + "/internal/decoder/api", PkgName: "api", Func: "VerifC01CheckTrailings", Tier: "quick", Covers: []string{"accept", "reject"},
+		Desc:   "Decoder.CheckTrailings accepts exactly when every remaining byte satisfies the real encoding/json.isSpace; error position = first non-space byte",
+		Bounds: "all strings of length 0..6, all start offsets 0..len"},
+
+	{Prop: "C17", Pkg: mod + "/internal/decoder/api", PkgName: "api", Func: "VerifC17StreamDecode3", Tier: "quick", Covers: []string{"clean-eof", "bad-tail", "two-values"},
+		Desc:    "StreamDecoder.Decode/More/readMore/peek/scan/refill/realloc: framed values and terminal condition equal framing the concatenated stream, for every way of cutting the stream into Read results (empty reads, data+EOF)",
+		Bounds:  "all streams of 3 bytes over the alphabet {1,space,[,],\",t,comma,x}; <= 3 arbitrary Read cuts then the rest; initial buffer capacity 2 (realloc crossed)",
+		Assumes: []string{"native.SkipOneFast behaves like the reference model verifSkipOneFast (transcribed from native/scanning.h skip_one_fast_1, scalar tail paths); counterexamples are replayed against the real native", "Decoder.Decode (decodeImpl) succeeds and consumes the framed text"}},
+	{Prop: "C17", Pkg: mod + "/internal/decoder/api", PkgName: "api", Func: "VerifC17StreamDecodeFail3", Tier: "quick", Covers: []string{"reader-error"},
+		Desc:   "same with a non-EOF reader error injected at an arbitrary stream offset: returned unchanged after the values that precede it",
+		Bounds: "streams of 3 bytes, error offset 0..3, <= 2 arbitrary cuts"},
+	{Prop: "C17", Pkg: mod + "/internal/decoder/api", PkgName: "api", Func: "VerifC17StreamDecode4", Tier: "thorough", Covers: []string{"clean-eof", "bad-tail", "two-values"},
+		Desc:   "as VerifC17StreamDecode3",
+		Bounds: "streams of 4 bytes, <= 3 cuts, initial buffer capacity 1"},
+
+	{Prop: "C17", Pkg: mod + "/internal/encoder", PkgName: "encoder", Func: "VerifC17StreamEncode", Tier: "quick", Covers: []string{"write-failed", "codec-failed", "newline", "no-newline"},
+		Desc:    "StreamEncoder.Encode: returns a non-nil error whenever any Write (including the newline's) failed; newline appended unless NoEncoderNewline",
+		Bounds:  "codec output 1..3 arbitrary bytes or failure; <= 3 Write calls with arbitrary short counts / errors; all option words (EscapeHTML, ValidateString off)",
+		Assumes: []string{"the per-type encoder program (encodeTypedPointer) is a stub appending 1..3 arbitrary bytes or failing"}},
+
+	{Prop: "C06", Pkg: mod + "/internal/encoder", PkgName: "encoder", Func: "VerifC06EncodeOwnership", Tier: "quick", Covers: []string{"error", "above-limit", "below-limit"},
+		Desc:    "encoder.Encode: the returned slice is caller-owned: not owned by bytesPool at return, not aliased by the next call's result, unchanged by the next call; no double Put / use after Put (engine ghost state on every pool operation)",
+		Bounds:  "pool limit scaled to 4 bytes (encoding parameter), default buffer capacity 0..6, optional earlier pooled buffer of capacity 0..4, codec output 1..3 bytes, two consecutive calls",
+		Assumes: []string{"the per-type encoder program (encodeTypedPointer) is a stub appending 1..3 arbitrary bytes or failing", "sync.Pool.Get returns New() or any object previously Put (nondeterministic)"}},
+	{Prop: "C06", Pkg: mod + "/internal/encoder", PkgName: "encoder", Func: "VerifC06EncodeInto", Tier: "quick", Covers: []string{"end"},
+		Desc:   "encoder.EncodeInto: caller prefix preserved, every store inside the (possibly re-allocated) buffer, for every initial len/cap",
+		Bounds: "cap 0..4, len 0..cap, codec output 1..3 bytes"},
+	{Prop: "C06", Pkg: mod + "/internal/decoder/api", PkgName: "api", Func: "VerifC17StreamDecode3", Tier: "quick", Covers: []string{"clean-eof"},
+		Desc:   "StreamDecoder.Decode hands the decoder a private copy of the framed text (never the reusable, pooled read buffer), for every option word",
+		Bounds: "as VerifC17StreamDecode3 (3-byte streams, <= 3 cuts), decoder option word arbitrary"},
+
+	{Prop: "C03", Pkg: mod + "/internal/encoder/alg", PkgName: "alg", Func: "VerifC03IsValidNumber", Tier: "quick", Covers: []string{"valid", "invalid"},
+		Desc:   "alg.IsValidNumber agrees with the real encoding/json.isValidNumber (executed from stdlib SSA)",
+		Bounds: "all strings of length 0..6"},
+
+	{Prop: "C09", Pkg: mod + "/internal/caching", PkgName: "caching", Func: "VerifC09PcacheStep4", Tier: "quick", Covers: []string{"rehash", "norehash"},
+		Desc:   "_ProgramMap.add from an arbitrary valid map: copy-on-write, new key found, old keys keep their values, absent keys stay absent (equal hashes are not equal types), load factor kept",
+		Bounds: "capacity 4, every occupancy pattern with <= 2 entries, symbolic 32-bit hashes (inductive step: covers histories of any length that keep the invariant)"},
+	{Prop: "C09", Pkg: mod + "/internal/caching", PkgName: "caching", Func: "VerifC09PcacheStep8", Tier: "thorough", Covers: []string{"rehash", "norehash"},
+		Desc:   "same as VerifC09PcacheStep4 with capacity 8",
+		Bounds: "capacity 8, every occupancy pattern with <= 4 entries, symbolic hashes"},
 }
